@@ -151,6 +151,12 @@ func otherLiterals() []literal {
 	for _, v := range []string{"x", "Xy_1", "foo[1]", "v[0][12]", "_a", "tt", "L1", "W", "S1F1", "e5", "x0b1"} {
 		out = append(out, literal{Text: v, Class: "var", Str: v})
 	}
+	// number-like tokens of wrong syntax: a digit outside the base, a letter glued to a number, a bare base
+	// prefix. No item type can represent them and they are not two values either (values are separated by blanks).
+	for _, v := range []string{"0b12", "0b2", "0b102", "0b19", "-0b12", "0o8", "0o79", "0o18", "-0o79", "0o1018", "0B12", "0O79",
+		"0x1G", "0xG", "12ab", "1x", "1_000", "0b", "0x", "0o", "0b1_", "0o7_", "0b1x", "0b01b", "0o17o", "0b1T", "0o7F", "1T"} {
+		out = append(out, literal{Text: v, Class: "malformed"})
+	}
 	return out
 }
 
@@ -171,7 +177,7 @@ func expectElem(k ref.Kind, l literal) (int, []ref.Elem) {
 			return vValue, []ref.Elem{{T: l.Bool}}
 		}
 		return vError, nil
-	case "string":
+	case "string", "malformed":
 		return vError, nil
 	case "int":
 		if k == ref.BOOLEAN {
